@@ -116,6 +116,8 @@ type entryOutcome struct {
 	EndFeas    int
 	SamplesOK  int
 	SampleNotes []string
+	S2Checks   int
+	S2Time     time.Duration
 }
 
 type confirmedViolation struct {
@@ -275,6 +277,9 @@ func checkMain(args []string) int {
 		}
 		e := newEngine(prog, pkg, []string{"z3", "-in"})
 		e.stopOnViol = 1000000
+		if tier == "thorough" {
+			e.solver2Bin = []string{"z3-new", "-in"}
+		}
 		e.extraNoop = epc.ExtraNoop
 		e.redirect = epc.Redirect
 		e.solverFresh = pc.SolverMode == "fresh" || pc.SolverMode == "int-fresh"
@@ -317,7 +322,7 @@ func checkMain(args []string) int {
 		e.params["seed"] = int64(seed)
 		t1 := time.Now()
 		res := e.explore(fn, workers)
-		oc := &entryOutcome{Entry: ec.Name, Res: res, Wall: time.Since(t1), Params: params}
+		oc := &entryOutcome{Entry: ec.Name, Res: res, Wall: time.Since(t1), Params: params, S2Checks: e.Solver2Checks, S2Time: e.Solver2Time}
 		outcomes = append(outcomes, oc)
 		fmt.Fprintf(os.Stderr, "[%s] %s: paths=%d ends=%v queries=%d solver=%v wall=%v\n", id, ec.Name, res.Paths, res.Ends,
 			res.Queries, res.SolverTime.Round(time.Millisecond), oc.Wall.Round(time.Millisecond))
@@ -857,6 +862,7 @@ func writeEvidence(verif, id, tier string, seed int, pc PropCfg, outs []*entryOu
 			"solver_queries": r.Queries, "solver_time_s": r.SolverTime.Seconds(), "wall_s": oc.Wall.Seconds(),
 			"engine_config": r.Cfg, "violations_found": len(r.Violations), "confirmed": len(oc.Confirmed), "unconfirmed": oc.Unconfirmd,
 			"passing_paths_replayed_natively_with_equal_observations": oc.SamplesOK,
+			"second_solver_rechecks_of_unsat_assertions": oc.S2Checks, "second_solver_time_s": oc.S2Time.Seconds(),
 		})
 	}
 	if states == 0 {
@@ -880,7 +886,7 @@ func writeEvidence(verif, id, tier string, seed int, pc PropCfg, outs []*entryOu
 	cov["intrinsics_and_stubs_hit"] = sortedSet(stubs)
 	cov["reach_markers"] = sortedSet(reached)
 	cov["entries"] = entries
-	cov["solver"] = "z3 4.8.12 (/usr/bin/z3 -in), one process per worker, push/pop"
+	cov["solver"] = "z3 4.8.12 (/usr/bin/z3 -in), one process per worker, push/pop; thorough tier: every unsat of an assertion query re-asked of z3 5.1.0 (z3-new) from scratch"
 	cov["known_findings_matched"] = known
 	cov["translator_validation_notes"] = sampleNotes
 	cov["inconclusive"] = inconclusive
